@@ -941,9 +941,9 @@ Proof.
                 (load_roots_cinv roots [] _ (empty_cinv (init_state W) eq_refl eq_refl eq_refl))) as H1.
   destruct (resolve_pending (jfuel W) W o (load_roots W (init_state W) roots)) as [st|st|]; [| |discriminate].
   - intro E. inversion E; subst. destruct H1 as [H1 Hi]. apply Fin; assumption.
-  - pose proof (resolve_pending_cinv o (roots ++ []) (jfuel W) (load_roots W (restart_state st) roots)
-                  (load_roots_cinv roots [] _ (empty_cinv (restart_state st) eq_refl eq_refl eq_refl))) as H2.
-    destruct (resolve_pending (jfuel W) W o (load_roots W (restart_state st) roots)) as [st2|st2|]; try discriminate.
+  - pose proof (resolve_pending_cinv o (roots ++ []) (jfuel W) (load_roots W (restart_state W st) roots)
+                  (load_roots_cinv roots [] _ (empty_cinv (restart_state W st) eq_refl eq_refl eq_refl))) as H2.
+    destruct (resolve_pending (jfuel W) W o (load_roots W (restart_state W st) roots)) as [st2|st2|]; try discriminate.
     intro E. inversion E; subst. destruct H2 as [H2 Hi]. apply Fin; assumption.
 Qed.
 End C3.
